@@ -180,6 +180,7 @@ func (c *Ctx) runBFS(name string, sys xstate.System, depth int, kase interface{}
 	if !c.Want(name) {
 		return
 	}
+	c.BeginScenario()
 	st := c.Stat(name, "bfs")
 	st.Bounds = fmt.Sprintf("event sequences to depth %d over %d events", depth, sys.NumEvents())
 	if c.Replay != nil {
